@@ -49,7 +49,7 @@ cp "$S/kc/go.sum" "$S/lifecycle/go.sum"
 YIELD="${VERIF_YIELD:-}"
 "$KCINSTR" -dir "$S/kc" -tags verif -constvar EventBufsiz -sites "$S/sites.txt" -yield "$YIELD" . ./types/... ./join ./client ./filter ./nsname || exit 2
 # nothing nondeterministic may survive in the instrumented library
-if grep -n "reflect\.Select\|sync\.Map\|sync\.Cond" "$S"/kc/*.go "$S"/kc/join/*.go "$S"/kc/types/*/*.go 2>/dev/null | grep -v _test.go | grep -v "^$S/kc/types/gen"; then
+if grep -n "reflect\.Select" "$S"/kc/*.go "$S"/kc/join/*.go "$S"/kc/types/*/*.go 2>/dev/null | grep -v _test.go | grep -v "^$S/kc/types/gen"; then
   fail "unsupported primitive in instrumented code"
 fi
 # typed glue: one file per typed package, instantiated from the template
